@@ -86,6 +86,9 @@ class Lithium:
         Returns:
             0 for successful reduction
         """
+        # nothing has been written by *this* run yet (the object may be re-used)
+        self.testcase_written = False
+
         if hasattr(self.condition_script, "init"):
             cast(Any, self.condition_script).init(self.condition_args)
 
